@@ -426,7 +426,10 @@ def apply_foreign(fmt, text, extents, spec):
         k = spec.get('after', 0) % len(new_ext)
         a, b = new_ext[k]
         ins = '$$$$\n' if fmt in ('sdf', 'esdf') else ('$MFMT\n' if fmt in ('rdf', 'erdf') else '')
-        if ins and (fmt in ('sdf', 'esdf') or k + 1 < len(new_ext)):
+        if ins and fmt in ('rdf', 'erdf') and k + 1 == len(new_ext) and spec.get('no_newline'):
+            # a file cut right after the format line of a record that never got written: nothing follows the delimiter
+            text = text + ins
+        elif ins and (fmt in ('sdf', 'esdf') or k + 1 < len(new_ext)):
             pos = b if fmt in ('sdf', 'esdf') else new_ext[k + 1][0]
             text = text[:pos] + ins + text[pos:]
             new_ext = [(x, y) if y <= pos else (x + len(ins), y + len(ins)) for x, y in new_ext]
